@@ -22,12 +22,13 @@ func init() {
 			fail("%s: ServerConnection.upgrade not found", file)
 		} else {
 			after := false
+			defs := c05rLocalDefs(up.Body)
 			for _, st := range up.Body.List {
 				is, ok := st.(*ast.IfStmt)
 				if !ok {
 					continue
 				}
-				cond := strings.Join(strings.Fields(src(is.Cond)), "")
+				cond := strings.Join(strings.Fields(c05rExpand(is.Cond, defs, true, 0)), "")
 				if strings.Contains(cond, "CapabilityStartTls") {
 					after = true
 					continue
@@ -65,4 +66,83 @@ func init() {
 		fmt.Fprintf(b, "/-- … handshake: a TLS configuration that cannot be loaded ends the announce step when client certificates are required -/\ndef c05AnnounceRefusesUnloadable : Bool := %v\n\n", announce)
 		fmt.Fprintf(b, "/-- … clientCertRequired() is the manager's own ClientCertRequired() (false when it has none) -/\ndef c05RequirementFromManager : Bool := %v\n", direct)
 	})
+}
+
+// c05rLocalDefs: the local variables of body that are assigned exactly once, by `name := <expr>` (one name, one
+// value) — a named condition such as `startTlsRequested := strings.ToUpper(…) == strings.ToUpper(CapabilityStartTls)`.
+// Variables also assigned elsewhere (=, op=, ++, multi-value, range, &x) are left out.
+func c05rLocalDefs(body *ast.BlockStmt) map[string]ast.Expr {
+	defs := map[string]ast.Expr{}
+	count := map[string]int{}
+	ast.Inspect(body, func(n ast.Node) bool {
+		switch x := n.(type) {
+		case *ast.AssignStmt:
+			for _, l := range x.Lhs {
+				if id, ok := l.(*ast.Ident); ok {
+					count[id.Name]++
+				}
+			}
+			if x.Tok.String() == ":=" && len(x.Lhs) == 1 && len(x.Rhs) == 1 {
+				if id, ok := x.Lhs[0].(*ast.Ident); ok {
+					defs[id.Name] = x.Rhs[0]
+				}
+			}
+		case *ast.IncDecStmt:
+			if id, ok := x.X.(*ast.Ident); ok {
+				count[id.Name] += 2
+			}
+		case *ast.RangeStmt:
+			for _, l := range []ast.Expr{x.Key, x.Value} {
+				if id, ok := l.(*ast.Ident); ok {
+					count[id.Name] += 2
+				}
+			}
+		case *ast.UnaryExpr:
+			if id, ok := x.X.(*ast.Ident); ok && x.Op.String() == "&" {
+				count[id.Name] += 2
+			}
+		case *ast.ValueSpec:
+			for _, nm := range x.Names {
+				count[nm.Name] += 2
+			}
+		}
+		return true
+	})
+	for k := range defs {
+		if count[k] != 1 {
+			delete(defs, k)
+		}
+	}
+	return defs
+}
+
+// c05rExpand renders a condition with every such named sub-condition replaced by its defining expression (in
+// parentheses unless it stands alone or is itself a primary expression), so that `if startTlsRequested {` reads as
+// the comparison it names and `required := !sc.secure && sc.clientCertRequired(); if required {` as that conjunction.
+func c05rExpand(e ast.Expr, defs map[string]ast.Expr, top bool, depth int) string {
+	if depth > 4 {
+		return src(e)
+	}
+	switch x := e.(type) {
+	case *ast.Ident:
+		if d, ok := defs[x.Name]; ok {
+			s := c05rExpand(d, defs, true, depth+1)
+			if _, bin := d.(*ast.BinaryExpr); bin && !top {
+				return "(" + s + ")"
+			}
+			return s
+		}
+	case *ast.ParenExpr:
+		if top {
+			return c05rExpand(x.X, defs, true, depth)
+		}
+		return "(" + c05rExpand(x.X, defs, true, depth) + ")"
+	case *ast.UnaryExpr:
+		return x.Op.String() + c05rExpand(x.X, defs, false, depth)
+	case *ast.BinaryExpr:
+		if x.Op.String() == "&&" || x.Op.String() == "||" {
+			return c05rExpand(x.X, defs, false, depth) + " " + x.Op.String() + " " + c05rExpand(x.Y, defs, false, depth)
+		}
+	}
+	return src(e)
 }
